@@ -479,6 +479,13 @@ aiff_read_header (SF_PRIVATE *psf, COMM_CHUNK *comm_fmt)
 
 
 			case COMM_MARKER :
+					/* A second COMM chunk is not looked at (peak info and channel map are already sized from the first). */
+					if (found_chunk & HAVE_COMM)
+					{	psf_log_printf (psf, " %M : %u (second COMM chunk, skipped)\n", marker, chunk_size) ;
+						psf_binheader_readf (psf, "j", chunk_size) ;
+						break ;
+						} ;
+
 					paiff->comm_offset = psf_ftell (psf) - 8 ;
 					chunk_size += chunk_size & 1 ;
 					comm_fmt->size = chunk_size ;
